@@ -241,7 +241,7 @@ def _keys_of_flavour(f, cfg):
     if f == "f":
         return ["f:1", "f:2", "f:3", "g:1", "g:2"]
     if f == "u":
-        return ["u:1", "u:2", "u:3"]
+        return ["u:1", "u:2", "u:3", "u:4"]
     return []
 
 
